@@ -77,12 +77,13 @@ Out(st) == [st |-> st, hook |-> NoHook]
 OutHook(st, kind, item, n) == [st |-> st, hook |-> [k |-> kind, item |-> item, n |-> n]]
 
 \* ------------------------------------------------------------------ keys
-Digits == {"0", "1", "2", "3", "9"}
+Digits == {"0", "1", "2", "3", "4", "5", "6", "7", "8", "9"}
 CmdToks == {"open_a", "open_p", "open_c", "open_bad", "feed_f", "feed_u", "bad_cmd"}
 CharKeys == {"j", "k", "g", "h", "l", "sp", "c", "r", "a", "o", "p", "b", "x", "hi", "dot"} \cup Digits \cup {"colon"}   \* "x": an unbound ASCII key, "hi": a byte >= 0x80
 Keys == CharKeys \cup {"enter", "esc", "bs"} \cup CmdToks
 
-DigitVal(d) == CASE d = "0" -> 0 [] d = "1" -> 1 [] d = "2" -> 2 [] d = "3" -> 3 [] OTHER -> 9
+DigitVal(d) == CASE d = "0" -> 0 [] d = "1" -> 1 [] d = "2" -> 2 [] d = "3" -> 3 [] d = "4" -> 4 [] d = "5" -> 5
+                   [] d = "6" -> 6 [] d = "7" -> 7 [] d = "8" -> 8 [] OTHER -> 9
 RECURSIVE NumOf(_)
 NumOf(b) == IF b = <<>> THEN 0 ELSE LET r == NumOf(SubSeq(b, 1, Len(b) - 1)) * 10 + DigitVal(b[Len(b)]) IN IF r > 1000 THEN 1000 ELSE r
 
